@@ -13,6 +13,9 @@ Theorem conn_forwards : forall (A D : Type) (cast : D -> A -> A) (zeroA : A) (sh
   | KBatch _ v =>
       conn_synapse RN (conn_apply RN cast zeroA shp c o) =
       s_apply RN cast zeroA (conn_synapse RN c) (SBatch RN v)
+  | KOnSyn _ o' =>
+      conn_synapse RN (conn_apply RN cast zeroA shp c o) =
+      s_apply RN cast zeroA (conn_synapse RN c) o'
   | KSyn _ ds dt dl b ip =>
       match s_ctor RN zeroA ds shp dt dl b ip with
       | Some s => conn_synapse RN (conn_apply RN cast zeroA shp c o) = s
